@@ -416,11 +416,11 @@ def op_of(body):
         return ('drain', None, None)
     if side == 'S' and nm in ('send', 'send_timeout', 'send_option_timeout') and h == 'Sender':
         return ('send', True, nm)
-    if side == 'S' and nm.startswith('try_send'):
+    if side == 'S' and nm in ('try_send', 'try_send_option', 'try_send_realtime', 'try_send_option_realtime'):
         return ('send', False, nm)
     if side == 'R' and nm in ('recv', 'recv_timeout') and h == 'Receiver':
         return ('recv', True, nm)
-    if side == 'R' and nm.startswith('try_recv'):
+    if side == 'R' and nm in ('try_recv', 'try_recv_realtime'):
         return ('recv', False, nm)
     return None
 
